@@ -49,6 +49,7 @@ def api_level(ctx):
     r = ctx.rng
     hx = lambda t: t.encode().hex()
     ops = []
+    prev = None
     for _ in range(ctx.n(6000, 120000)):
         flags = r.choice([0x02, 0x12])
         ttl = r.choice([64, 60, 57, 30, 31, 32, 33, 29, 100, 128, 1])
@@ -105,7 +106,14 @@ def api_level(ctx):
                 lines.append("sig = " + sig.replace("mss,nop,ws", "mss,nop,ws,sok"))
         if r.random() < 0.9 and not any(l == f"[{sec}]" for l in lines):
             lines.append(f"[{sec}]")
-        ops.append("histq\tL:" + hx("\n".join(lines) + "\n") + f"\tT:4:{pkt.hex()}:0:{r.choice([35, 35, 35, 0, 4, 255])}")
+        text = "\n".join(lines) + "\n"
+        tstep = f"T:4:{pkt.hex()}:0:{r.choice([35, 35, 35, 0, 4, 255])}"
+        if prev is not None and r.random() < 0.3:
+            # the same Database object held another file before (and answered a query on it): only the current file counts
+            ops.append("histq\tL:" + hx(prev) + "\t" + tstep + "\tL:" + hx(text) + "\t" + tstep)
+        else:
+            ops.append("histq\tL:" + hx(text) + "\t" + tstep)
+        prev = text
     ctx.correspond(ops, nontrivial=lambda l, a: " ; " in a and not a.split(" ; ")[1].startswith(("none", "ERR")), label="api-db-text",
                    tagger=lambda l, a: (a.split(" ; ")[1].split(" ")[1] if " ; " in a and len(a.split(" ; ")[1].split(" ")) == 3 else a.split(" ; ")[-1][:10]))
 
